@@ -12,10 +12,10 @@ import (
 // shapeSel describes which shapes a check wants.
 type shapeSel struct {
 	Ops        func(t *pgen.Type, form string) []string // ops for an item (nil/empty = skip item)
-	Forms      []string                                  // "top", "field"
-	QuickDeep  int                                       // number of depth-2 shapes sampled in quick tier
-	QuickRand  int                                       // number of random deeper shapes in quick tier
-	ThorRand   int                                       // random deeper shapes in thorough tier
+	Forms      []string                                 // "top", "field"
+	QuickDeep  int                                      // number of depth-2 shapes sampled in quick tier
+	QuickRand  int                                      // number of random deeper shapes in quick tier
+	ThorRand   int                                      // random deeper shapes in thorough tier
 	BatchSize  int
 	KeepShape  func(t *pgen.Type) bool // optional filter on the shape itself
 	ExtraTypes func(s *pgen.Std) []*pgen.Type
